@@ -255,10 +255,11 @@ fn run_case(cfg: &Cfg, progs: &[Vec<Op>], sched: &[usize], keys: &[u64]) -> RunR
             }
         }
         if out == StepOutcome::Blocked { blocked.push(t); blocked_steps += 1; }
-        // threads blocked earlier may have been released by the end of an operation of t
-        let op_ended = matches!(out, StepOutcome::Reached(900) | StepOutcome::Finished);
+        // threads blocked earlier may have been released by this step of t: a shard write lock is
+        // released at the end of get_or_insert (and between shards by evict_all_unpinned), the
+        // budget's alloc_lock when allocate returns
         let evict_all = op_before == Some(Op::EvictAll);
-        if !blocked.is_empty() && (op_ended || evict_all) && out != StepOutcome::Skipped {
+        if !blocked.is_empty() && out != StepOutcome::Skipped && out != StepOutcome::Blocked {
             let mut still = vec![];
             for &u in blocked.iter() {
                 if u == t { still.push(u); continue; }
@@ -418,6 +419,7 @@ fn scripts() -> Vec<(Vec<Vec<Op>>, &'static str)> {
         (vec![vec![GetIns(K0, true, 11), Unpin(K0), Clear], vec![GetIns(K1, true, 21), Read(K1), Unpin(K1)]], "clear_vs_insert"),
         (vec![vec![GetIns(K0, true, 11), Unpin(K0), Clear], vec![GetIns(J0, true, 21), Unpin(J0)]], "clear_vs_insert"),
         (vec![vec![GetIns(K0, true, 11), GetIns(J0, true, 12), Unpin(K0), Unpin(J0), Clear], vec![EvictAll]], "clear_vs_evict_all"),
+        (vec![vec![GetIns(K0, true, 11), Unpin(K0), GetIns(K1, true, 12)], vec![GetIns(J0, true, 21), Unpin(J0), GetIns(J1, true, 22)]], "alloc_lock_two_shards"),
         (vec![vec![GetIns(K0, false, 11)], vec![GetIns(K1, true, 21), Unpin(K1)]], "init_failure"),
         (vec![vec![GetIns(K0, true, 11), GetIns(K1, false, 12), Unpin(K0)], vec![Read(K0), Get(K0), Unpin(K0)]], "init_failure"),
         (vec![vec![GetIns(K0, true, 11), Write(K0, 12), Read(K0), Unpin(K0)], vec![GetIns(K1, true, 21), Read(K1), Unpin(K1), Read(K0)]], "pin_vs_evict"),
@@ -470,7 +472,7 @@ fn generate(rng: &mut Rng, thorough: bool) -> Gen {
     let bcfg = budget_cfgs();
     // (1) scripts x two-phase schedules: thread x runs a steps, then thread y runs b steps, the rest is drained
     //     in thread order.  The values of a are taken from a probe run of x alone: every position where x is
-    //     parked at a hook site (501, 100, 101, 102, 112, 502) and some operation boundaries.
+    //     parked at a hook site (501, 99, 100, 101, 102, 112, 502) and some operation boundaries.
     for (si, (progs, kind)) in scripts().into_iter().enumerate() {
         let cfgs: Vec<Cfg> = if thorough {
             let nb = bcfg.len();
@@ -561,6 +563,7 @@ fn gen(a: &Args) {
                     for (u, p) in parked.iter().enumerate() {
                         if u != st.t && st.out != StepOutcome::Skipped { if let Some(site) = p { if *site != 900 { *windows.entry(format!("window_{}", site)).or_insert(0) += 1; } } }
                     }
+                    if st.out == StepOutcome::Blocked && parked[st.t] == Some(99) { *windows.entry("blocked_on_alloc_lock".to_string()).or_insert(0) += 1; }
                     parked[st.t] = match st.out { StepOutcome::Reached(x) => Some(x), StepOutcome::Finished => None, _ => parked[st.t] };
                 }
                 let nt = nontrivial(&progs, &ob);
